@@ -176,6 +176,25 @@ def search(ctx, deep):
                                'reused object differs from a fresh object with the same theta',
                                'pdf / partial_derivative depend only on (theta, u, v)', f'{fam}.pdf:history-dependence')
                 break
+    # buffer reuse: the same ndarray object overwritten in place between calls = a fresh array with those rows
+    for fam in B.FAMS:
+        th = B.theta_grid(fam)[-3]
+        obj = B.make(fam, th)
+        buf = np.array([(rng.uniform(0.05, 0.95), rng.uniform(0.05, 0.95)) for _ in range(5)])
+        for step in range(4):
+            with np.errstate(all='ignore'):
+                for m in ('probability_density', 'partial_derivative', 'cumulative_distribution'):
+                    a = np.asarray(getattr(obj, m)(buf), dtype=float)
+                    b = np.asarray(getattr(B.make(fam, th), m)(buf.copy()), dtype=float)
+                    checked += 1
+                    if not np.array_equal(a, b, equal_nan=True):
+                        found += 1
+                        ctx.fail_input(f'{fam}.{m}', {'theta': th, 'step': step, 'rows_now_in_buffer': buf.tolist(),
+                                                      'note': 'same ndarray object refilled in place between calls'},
+                                       {'reused_buffer': a.tolist(), 'fresh_array': b.tolist()},
+                                       'the result depends only on the values passed', f'{fam}.{m}:depends-on-buffer-identity')
+                        break
+            buf[:] = np.array([(rng.uniform(0.05, 0.95), rng.uniform(0.05, 0.95)) for _ in range(5)])
     ctx.support = {'oracle_checks': checked, 'failures': found, 'deep': deep}
 
 
